@@ -222,8 +222,8 @@ where
 
                 // Handle post-commit operations
 
-                // Check if the local member was removed by this commit
-                if mls_group.own_leaf().is_none() {
+                // Check if the local member was removed by this commit (see process_commit)
+                if !mls_group.is_active() || mls_group.own_leaf().is_none() {
                     return match self.handle_local_member_eviction(&group.mls_group_id, event) {
                         Ok(_) => Ok(MessageProcessingResult::Commit {
                             mls_group_id: group.mls_group_id.clone(),
